@@ -14,6 +14,10 @@ package common
 //@ ghost qLimitCount int
 //@ ghost qOffsetCount int
 
+// query descriptor: which JOIN fragments and which column expressions a *bun.SelectQuery carries (used by C17 C35)
+//@ declare joins(q *bun.SelectQuery, s string) bool
+//@ declare exprs(q *bun.SelectQuery, s string) bool
+
 //@ assumed func (q *bun.SelectQuery) Limit(n int) (r *bun.SelectQuery)
 //@   modifies qLimit, qLimitCount
 //@   ensures qLimit == n && qLimitCount == old(qLimitCount) + 1 && r != nil
@@ -26,10 +30,14 @@ package common
 //@   modifies qOrderExpr
 //@   ensures len(orders) == 1 ==> qOrderExpr == orders[0]
 //@   ensures r != nil
+//@   ensures forall s string :: {joins(r, s)} joins(r, s) == joins(q, s)
+//@   ensures forall s string :: {exprs(r, s)} exprs(r, s) == exprs(q, s)
 
 //@ assumed func (q *bun.SelectQuery) Where(query string, args ...any) (r *bun.SelectQuery)
 //@   modifies qWhere, qWhereCount
 //@   ensures qWhere == query && qWhereCount == old(qWhereCount) + 1 && r != nil
+//@   ensures forall s string :: {joins(r, s)} joins(r, s) == joins(q, s)
+//@   ensures forall s string :: {exprs(r, s)} exprs(r, s) == exprs(q, s)
 
 //@ assumed func (o paginate.Order) Reverse() (r paginate.Order)
 //@   ensures r == (o + 1) % 2
@@ -150,3 +158,17 @@ package common
 //@   property C21 C38
 //@   ensures r != nil && r.ResourceRepository != nil && r.defaultOrder == defaultOrder && r.defaultPaginationColumn == defaultPaginationColumn
 //@   note establishes the receiver preconditions of Paginate
+
+// ---- resource.go: point-in-time switches (C17 C35) ------------------------------------------------------------
+//@ declare tzero(t time.Time) bool
+
+//@ assumed func (t time.Time) IsZero() (r bool)
+//@   ensures r == tzero(t)
+
+//@ func (rq ResourceQuery[Opts]) UsePIT() (r bool)
+//@   property C17 C35
+//@   ensures r == (rq.PIT != nil && !tzero(deref(rq.PIT)))
+
+//@ func (rq ResourceQuery[Opts]) UseOOT() (r bool)
+//@   property C17 C35
+//@   ensures r == (rq.OOT != nil && !tzero(deref(rq.OOT)))
